@@ -1,5 +1,6 @@
 import Ebv.Driver.Io
 import Ebv.Model.Parallel
+import Ebv.Model.FmmuLock
 open Ebv Ebv.Io Ebv.Parallel Lean
 
 def optS : Option Nat → String
@@ -54,4 +55,43 @@ def step1 (j : Json) : Option String := do
     s!"iw={v (fun s => !installedB s)} fw={v (fun s => !windowsDisjointB s)}"
   pure (" ; ".intercalate (s.procs.map showProc) ++ " ;; " ++ showSys s ++ " ;; " ++ viol ++ s!" quiet={Quiet s0 sched}")
 
-def main : IO Unit := driverMain step1
+/-! histories of `FMMULock` objects used directly (`Ebv.FmmuLock`): cases with a `scripts` field -/
+
+def opOf (j : Json) : Option FmmuLock.Op := do
+  match ← jArr j with
+  | [n, a] =>
+    match ← jStr n with
+    | "new" => pure (.new (← (← jArr a).mapM jNat))
+    | "addr" => pure (.addr (← jNat a))
+    | "rm" => pure (.rm (← jNat a))
+    | _ => none
+  | _ => none
+
+def evOf (j : Json) : Option FmmuLock.Ev := do
+  let n ← jInt j
+  pure (if n < 0 then .kill (-n - 1).toNat else .step n.toNat)
+
+def showObj (s : FmmuLock.Sys) (g : Nat) : String :=
+  let o := FmmuLock.getO s g
+  let ga := FmmuLock.givenAddrs o
+  s!"{o.no}:{ga.length}:{ga.getLastD 0}:{ga.foldl (· + ·) 0}:{if o.run then "R" else "-"}"
+
+def showHProc (s : FmmuLock.Sys) (p : FmmuLock.Proc) : String :=
+  let st := if p.pc == .dead then "dead" else if p.pc == .idle && p.script.isEmpty then "done" else "active"
+  joinSp p.trace ++ s!" # {st} objs=[" ++ ",".intercalate (p.mine.map (showObj s)) ++ "]"
+
+def stepHist (j : Json) : Option String := do
+  let scripts ← (← fArr j "scripts").mapM fun sc => do (← jArr sc).mapM opOf
+  let evs ← (← fArr j "sched").mapM evOf
+  let fm0 ← fm0Of j
+  let s0 := FmmuLock.init scripts fm0
+  let s := FmmuLock.run s0 evs
+  let fw := optS (FmmuLock.firstBad (fun s => !FmmuLock.windowsDisjointB s) s0 evs 0)
+  pure (" ; ".intercalate (s.procs.map (showHProc s)) ++ s!" ;; fm={showFm s.fm} lock={optS s.fmLock} ;; fw={fw}")
+
+def stepAny (j : Json) : Option String :=
+  match field j "scripts" with
+  | some _ => stepHist j
+  | none => step1 j
+
+def main : IO Unit := driverMain stepAny
